@@ -8,7 +8,8 @@ def p_parts():
     from ._append import p_append
     from ._deflevels import p_deflevels
     from ._bookkeeping import p_bookkeeping
-    return [p_append, p_deflevels, p_bookkeeping]
+    from ._generic import optional_parts
+    return [p_append, p_deflevels, p_bookkeeping] + optional_parts(("_units", "p_units"), ("_partfiles", "p_partfiles"))
 
 
 def run(ctx):
